@@ -167,7 +167,7 @@ theorem initTransferStack_skeleton : Gen.GB.initTransferStack =
    "a.TransferStack = bridgingfee.NewIBCModule(a.TransferStack.(ibctransfer.IBCModule), *a.RollappKeeper, a.DelayedAckKeeper, a.TransferKeeper, *a.TxFeesKeeper)",
    "a.TransferStack = packetforwardmiddleware.NewIBCMiddleware(a.TransferStack, a.PacketForwardMiddlewareKeeper, 0, packetforwardkeeper.DefaultForwardTransferPacketTimeoutTimestamp)",
    "a.TransferStack = denommetadatamodule.NewIBCModule(a.TransferStack, a.DenomMetadataKeeper, a.RollappKeeper)",
-   "call a.DelayedAckMiddleware.Setup(delayedackmodule.WithIBCModule(a.TransferStack), delayedackmodule.WithKeeper(a.DelayedAckKeeper), delayedackmodule.WithRollappKeeper(a.RollappKeeper))",
+   "call a.DelayedAckMiddleware.Setup(delayedackmodule.WithIBCModule(a.TransferStack), delayedackmodule.WithKeeper(a.DelayedAckKeeper), delayedackmodule.WithRollappKeeper(a.RollappKeeper), delayedackmodule.WithForwardKeeper(a.PacketForwardMiddlewareKeeper))",
    "a.TransferStack = a.DelayedAckMiddleware",
    "a.TransferStack = genesisbridge.NewIBCModule(a.TransferStack, a.RollappKeeper, a.TransferKeeper, a.DenomMetadataKeeper)",
    "ibcRouter := ibcporttypes.NewRouter()",
